@@ -9,8 +9,8 @@ def plan(pid, tier, seed):
     quick = tier == "quick"
     if quick:
         mc = [
-            {"module": "Deps", "cfg": "Deps_MC_quick.cfg", "emit": True, "sample": 200, "properties": PROPS_ALL, "timeout": 600},
-            {"module": "Deps", "cfg": "Deps_Gen_unused_quick.cfg", "emit": True, "sample": 140, "properties": PROPS_ALL, "timeout": 600},
+            {"module": "Deps", "cfg": "Deps_MC_quick.cfg", "emit": True, "sample": 170, "properties": PROPS_ALL, "timeout": 600},
+            {"module": "Deps", "cfg": "Deps_Gen_unused_quick.cfg", "emit": True, "sample": 120, "properties": PROPS_ALL, "timeout": 600},
         ]
     else:
         mc = [
@@ -23,7 +23,7 @@ def plan(pid, tier, seed):
         "harness": "deps",
         "mc": mc,
         "gen": [],
-        "rand": 150 if quick else 2500,
+        "rand": 120 if quick else 2500,
         "trace": TRACE,
         "run_timeout": 3000,
     }
